@@ -8,7 +8,9 @@ from sa.model import enclosing_function
 TECHNIQUE = 'static analysis (ast): effect analysis for process-wide stores (class / module objects, class-level containers, import-time instances, shared default arguments with a decided statelessness premise), reset-completeness (every attribute written at episode time is re-assigned on every path of reset), reviewed table of nondeterminism sources'
 EXPLANATION = (
     "Decides the state-hygiene clauses of C10: (S1) GLOBAL: no function body stores into a class object or module attribute and no class-level mutable "
-    "container is mutated through instances (process-wide state shared by all environments); (S2) every source of nondeterminism (wall clock, random "
+    "container is mutated through instances (process-wide state shared by all environments); the process-wide contract clock of known finding F7 is read only by the "
+    "reviewed functions (chain resolution, lifespan) and lifespan() has no new caller; the delayed-action queue is rebuilt at every reset and the configured episode length is never "
+    "overwritten by a per-call override (C08 / C15 clauses re-evaluated here); (S2) every source of nondeterminism (wall clock, random "
     "draws, iteration over sets feeding ordered output) is in the reviewed table; (S3) RESET: every attribute TradingEnv writes at episode time is "
     "re-assigned unconditionally by reset, which builds a fresh Exchange and Broker and resets reward, state and transmitter; (S4) every Observer subclass "
     "re-initialises in __init__/reset whatever its callbacks write; Observer.reset re-runs __init__ with the stored arguments; (S5) Transmitter._reset "
